@@ -372,6 +372,7 @@ impl<'a> StreamState<'a> {
             signature: f2.sig,
             message: f2.msg,
             rendering,
+            tier: self.ctx.tier.name().to_string(),
         });
         self.stop = true;
     }
@@ -511,8 +512,8 @@ pub fn run_stream(prop: &dyn Property, args: StreamArgs) -> i32 {
 }
 
 /// `qv one`: run a single case, print the verdict as JSON; exit 0 pass, 10 fail.
-pub fn run_one(prop: &dyn Property, case: &Case, active: Vec<String>, known_sigs: Vec<(String, String)>) -> i32 {
-    let ctx = Ctx { tier: Tier::Quick, render: true, seed: 0, active, known_sigs: vec![] };
+pub fn run_one(prop: &dyn Property, case: &Case, active: Vec<String>, known_sigs: Vec<(String, String)>, tier: Tier) -> i32 {
+    let ctx = Ctx { tier, render: true, seed: 0, active, known_sigs: vec![] };
     let _ = known_sigs;
     let (verdict, out) = run_case(prop, case, &ctx);
     let (code, sig, msg) = match verdict {
@@ -535,6 +536,9 @@ struct OneResult {
     infra: Option<String>,
 }
 
+/// Tier under which one-case children decode their case (set by `check` / `replay`).
+static ONE_TIER_THOROUGH: std::sync::atomic::AtomicBool = std::sync::atomic::AtomicBool::new(false);
+
 fn spawn_one(prop_id: &str, case: &Case, scratch: &Path, active: &[String], timeout_s: u64) -> OneResult {
     static COUNTER: AtomicU64 = AtomicU64::new(0);
     let n = COUNTER.fetch_add(1, Ordering::SeqCst);
@@ -548,6 +552,8 @@ fn spawn_one(prop_id: &str, case: &Case, scratch: &Path, active: &[String], time
         .arg(&path)
         .arg("--active")
         .arg(active.join(","))
+        .arg("--tier")
+        .arg(if ONE_TIER_THOROUGH.load(Ordering::SeqCst) { "thorough" } else { "quick" })
         .stdout(Stdio::piped())
         .stderr(Stdio::piped())
         .spawn()
@@ -658,6 +664,7 @@ pub fn check(prop: &dyn Property, all: &dyn Fn(&str) -> Option<&'static dyn Prop
     let t0 = Instant::now();
     let root = verif_root();
     let id = prop.id();
+    ONE_TIER_THOROUGH.store(args.tier == Tier::Thorough, Ordering::SeqCst);
     let run_dir = root.join("harness/target/run").join(format!("{id}-{}", args.tier.name()));
     let _ = std::fs::remove_dir_all(&run_dir);
     std::fs::create_dir_all(&run_dir).expect("run dir");
@@ -870,6 +877,7 @@ pub fn check(prop: &dyn Property, all: &dyn Fn(&str) -> Option<&'static dyn Prop
                                         case: small,
                                         signature: fl.sig,
                                         message: format!("{} (stderr tail: {})", fl.msg, tail(&stderr, 300)),
+                                        tier: args.tier.name().to_string(),
                                     });
                                 }
                             }
@@ -1080,6 +1088,7 @@ pub fn replay(prop: &dyn Property, path: &Path) -> i32 {
         eprintln!("cannot read replay file {}", path.display());
         return EXIT_INCONCLUSIVE;
     };
+    ONE_TIER_THOROUGH.store(rf.tier == "thorough", Ordering::SeqCst);
     let run_dir = root.join("harness/target/run").join(format!("{}-replay", prop.id()));
     let one = spawn_one(prop.id(), &rf.case, &run_dir, &[], prop.watchdog_s() + 5);
     if let Some(m) = one.infra {
